@@ -35,7 +35,7 @@ func init() {
 		Rule: "exhaustive: a skeleton document with every position ResolveRefsIn, the ten resolvers and resolveContentRefs/resolveExampleRefs visit (table WalkSites: the nine component " +
 			"collections incl. links, response headers/links, examples of parameters, headers and media types, content of parameters and headers, encoding headers, schemas, callbacks, path items, " +
 			"operations) × 16 reference spellings (relative, ./, ../ escape, sub-directory, absolute, file://, http, https, " +
-			"scheme-relative, same path as the root on another host, whole-file and fragment forms, missing target) × 3 entry points × both switch settings (quick: a quarter of the grid); " +
+			"scheme-relative, same path as the root on another host, whole-file and fragment forms, missing target) × 3 entry points × both switch settings (quick: a sixth of the grid); " +
 			"enumerated families: $ref path items whose target is itself a $ref (target resolved / sorting later / in progress), a reference text in progress for one kind and met under another kind " +
 			"(6 shapes × every sub-position), targets only the raw re-read reaches; hand-made cross-document shapes (corpus) and a seeded random stream of multi-file universes " +
 			"(element files are also read through references of other kinds). Every case is loaded twice: recording reader directly and behind openapi3.URIMapCache. " +
@@ -464,6 +464,10 @@ func c11FileAbstract(f map[string]any) map[string]any {
 		}
 	}
 	out["elems"] = elems
+	out["selfRef"] = nil
+	if view == "pathItem" && jstr(root, "ref") != "" {
+		out["selfRef"] = n["r"] // the file is {"$ref": …}
+	}
 	hasSchema, hasContent := false, false
 	for _, k := range jlist(root["kids"]) {
 		if sl := slotOf(k); len(sl) > 0 {
@@ -569,6 +573,9 @@ func c11Derive(c hx.Case) hx.Case {
 // ---------------------------------------------------------------- real code
 
 func runC11(c hx.Case) any {
+	if c11IsHistory(c) {
+		return runC11History(c)
+	}
 	g, _ := c["g"].(map[string]any)
 	files := jlist(g["files"])
 	bodies := map[string][]byte{}
@@ -640,6 +647,11 @@ func runC11(c hx.Case) any {
 
 // c11SpecHolds: the property on an observed read sequence, from the spec data computed by the Lean driver.
 func c11SpecHolds(log []string, spec map[string]any) (bool, string) {
+	return c11SpecHoldsKnown(log, spec, nil)
+}
+
+// c11SpecHoldsKnown: known = locations of the documents the same loader loaded in earlier loads
+func c11SpecHoldsKnown(log []string, spec map[string]any, known []string) (bool, string) {
 	root, hasRoot := spec["root"].(string)
 	if !jbool(spec, "allowed") {
 		for _, u := range log {
@@ -664,6 +676,9 @@ func c11SpecHolds(log []string, spec map[string]any) (bool, string) {
 		edges[u] = append(edges[u], edge{d, !ok})
 	}
 	loaded := map[string]bool{}
+	for _, k := range known {
+		loaded[k] = true
+	}
 	for _, u := range log {
 		ok := hasRoot && u == root
 		for _, e := range edges[u] {
@@ -696,6 +711,9 @@ func cmpC11(c hx.Case, impl any, reply map[string]any) hx.Verdict {
 	}
 	if _, p := im["hang"]; p {
 		return hx.Verdict{IM: false, IS: false, Detail: "loader did not return"}
+	}
+	if c11IsHistory(c) {
+		return cmpC11History(c, im, model, spec)
 	}
 	v := hx.Verdict{IM: true, IS: true}
 	ilog, mlog := toStrs(im["log"]), toStrs(model["log"])
@@ -836,7 +854,9 @@ func c11Resolve(base string, ref string) string {
 }
 
 var c11Dirs = []string{"", "./", "../b/", "../a/", "sub/", "/r/b/", "/r/a/", "file:///r/b/", "http://h.example/r/a/", "https://h.example/r/a/", "//h.example/r/b/",
-	"../../r/a/", "../../../etc/", "http://other.example/"}
+	"../../r/a/", "../../../etc/", "http://other.example/",
+	// names that URL-escaping changes: percent-escape, raw space, non-ASCII, '+' and an escaped '+' — relative (they go through join) and absolute
+	"shared%20defs/", "sp ace/", "d\u00e9f/", "a+b/", "../b/sh%20x/", "http://h.example/r/a/sh%20x/", "/r/b/sp%20ace/"}
 
 func (u *c11Uni) refText(kind string, base string, depth int) string {
 	r := u.r
@@ -972,6 +992,14 @@ func (u *c11Uni) docOrElem(view string, loc string, depth int) c11El {
 	pref := 30
 	if depth > 2 {
 		pref = 15
+	}
+	if view == "pathItem" && depth < 4 && u.r.Chance(12) {
+		// a path-item file that is itself a reference (376b90f)
+		if t := u.refText("pathItem", loc, depth+1); t != "" {
+			if _, ok := c11RefJSON(t); ok {
+				return c11NewEl("pathItem", t)
+			}
+		}
 	}
 	if view != "doc" {
 		// the element itself is inline; its sub-elements may be references
@@ -1240,6 +1268,12 @@ func c11Handmade() map[string]hx.Case {
 		c11Doc("/r/a/b/d.json", kid(c11NewEl("pathItem", "sub/pi.json"), "paths", "/x")),
 		c11Elem("/r/a/b/sub/pi.json", "pathItem", kid(c11NewEl("parameter", "p.json"), "parameters", "0")),
 		c11Elem("/r/a/b/sub/p.json", "parameter"), c11Elem("/r/a/p.json", "parameter"), c11Elem("/r/a/b/p.json", "parameter"))
+	// 376b90f: a whole-file path item whose file is itself a reference: one more read, against the loaded file's location
+	out["pathitem_file_is_ref"] = mk(true, "file",
+		c11Doc("/r/a/root.json", kid(c11NewEl("pathItem", "b/p1.json"), "paths", "/x")),
+		map[string]any{"loc": "/r/a/b/p1.json", "view": "pathItem", "root": c11NewEl("pathItem", "sub/p2.json")},
+		c11Elem("/r/a/b/sub/p2.json", "pathItem", kid(c11NewEl("parameter", "p.json"), "parameters", "0")),
+		c11Elem("/r/a/b/sub/p.json", "parameter"), c11Elem("/r/a/b/p.json", "parameter"), c11Elem("/r/a/sub/p2.json", "pathItem"))
 	// f972c33: the raw re-read after a failed typed drill reads the REFERENCED document (twice in the log), not the referring one
 	out["reread_referenced_document_dangling"] = mk(true, "file",
 		c11Doc("/r/a/root.json", kid(c11NewEl("schema", "../b/d.json#/components/schemas/Nope"), "components", "schemas", "A"),
@@ -1272,6 +1306,20 @@ func c11Handmade() map[string]hx.Case {
 		c11Doc("/r/a/root.json", kid(c11NewEl("callback", "b/cb.json"), "components", "callbacks", "H"), kid(c11NewEl("callback", "#/components/callbacks/H"), "components", "callbacks", "R")),
 		c11Elem("/r/a/b/cb.json", "callback", kid(c11NewEl("pathItem", "e.json"), "evt")),
 		c11Elem("/r/a/b/e.json", "header"), c11Elem("/r/a/e.json", "pathItem"))
+	// histories on one Loader: a located load, then LoadFromData of a document with a dangling '#'-reference (the raw re-read
+	// has no location to read: nothing may be read, least of all the first load's file); the same file twice; a second
+	// document that refers into the one loaded (and resolved) before
+	{
+		a := c11Doc("/r/a/root.json", kid(c11NewEl("schema", "s.json"), "components", "schemas", "S"))
+		b := c11Doc("/r/m/mem.json", kid(c11NewEl("schema", "#/components/schemas/Nope"), "components", "schemas", "X"))
+		b2 := c11Doc("/r/m/mem2.json", kid(c11NewEl("schema", "/r/a/root.json#/components/schemas/S"), "components", "schemas", "X"), kid(c11NewEl("schema", "s.json"), "components", "schemas", "Y"))
+		fs := []any{a, b, b2, c11Elem("/r/a/s.json", "schema"), c11Elem("/r/m/s.json", "schema"), c11Elem("s.json", "schema")}
+		for _, al := range []bool{false, true} {
+			out[fmt.Sprintf("history_file_then_data_dangling_%v", al)] = c11HistCase(fs, c11Step("file", "/r/a/root.json", al), c11Step("data", "/r/m/mem.json", al))
+			out[fmt.Sprintf("history_same_file_twice_%v", al)] = c11HistCase(fs, c11Step("file", "/r/a/root.json", al), c11Step("file", "/r/a/root.json", al), c11Step("dataWithPath", "/r/a/root.json", al))
+		}
+		out["history_second_refers_into_first"] = c11HistCase(fs, c11Step("file", "/r/a/root.json", true), c11Step("data", "/r/m/mem2.json", true), c11Step("dataWithPath", "/r/m/mem2.json", true))
+	}
 	out["dangling_hash_ref_reread_off"] = mk(false, "file",
 		c11Doc("/r/a/root.json", kid(c11NewEl("schema", "#/components/schemas/Nope"), "components", "schemas", "A")))
 	return out
@@ -1301,6 +1349,9 @@ func genC11(ctx *hx.Ctx, emit func(hx.Case)) {
 		{"../../../etc/", "/etc/", false}, {"gone/", "", false},
 		{"", "/r/a/", true}, {"../b/", "/r/b/", true}, {"https://h.example/r/a/", "https://h.example/r/a/", true}, {"//h.example/r/a/", "//h.example/r/a/", true},
 		{"/r/b/", "/r/b/", true}, {"gone/", "", true},
+		// reference texts whose path URL-escaping changes (the location read must hold the DECODED path, as net/url resolves it)
+		{"shared%20defs/", "/r/a/shared%20defs/", false}, {"sp ace/", "/r/a/sp%20ace/", true}, {"d\u00e9f/", "/r/a/d%C3%A9f/", false},
+		{"a+b/", "/r/a/a+b/", true}, {"../b/sh%20x/", "/r/b/sh%20x/", true}, {"sub/d\u00e9 f/", "/r/a/sub/d%C3%A9%20f/", false},
 	}
 	entries := []string{"file", "dataWithPath", "data"}
 	for pi, p := range pos {
@@ -1308,8 +1359,8 @@ func genC11(ctx *hx.Ctx, emit func(hx.Case)) {
 		for si, sp := range spellings {
 			for ei, entry := range entries {
 				for _, allowed := range []bool{false, true} {
-					if !ctx.Thorough() && (pi+si+ei)%4 != 0 && !(allowed == false && sp.fragment && si >= 12) {
-						continue // quick tier: a quarter of the grid (all of the remote fragment spellings with the switch off)
+					if !ctx.Thorough() && (pi+si+ei)%6 != 0 && !(allowed == false && sp.fragment && si >= 12 && si < 16) {
+						continue // quick tier: a sixth of the grid (all of the remote fragment spellings with the switch off)
 					}
 					root := c11_deepCopy(skel).(map[string]any)
 					var text string
@@ -1355,14 +1406,20 @@ func genC11(ctx *hx.Ctx, emit func(hx.Case)) {
 	c11GenChains(ctx, emit)
 	c11GenRootChains(ctx, emit)
 	c11GenRereads(ctx, emit)
+	c11GenHistories(ctx, emit)
 	c11GenOtherKind(ctx, emit)
 	// random stream
-	n := 2200
+	n := 2000
 	if ctx.Thorough() {
 		n = 30000
 	}
 	for i := 0; i < n; i++ {
 		emit(c11RandomCase(ctx.Rng))
+		if i%5 == 0 {
+			if h := c11RandomHistory(ctx.Rng); h != nil {
+				emit(h)
+			}
+		}
 	}
 }
 
@@ -1420,7 +1477,8 @@ func c11GenChains(ctx *hx.Ctx, emit func(hx.Case)) {
 
 // c11GenRootChains: the same inside the root document: /x → "#/paths/~1y", /y → a reference (sorts later)
 func c11GenRootChains(ctx *hx.Ctx, emit func(hx.Case)) {
-	for _, sec := range []string{"pi.json", "../b/pi.json", "../b/e.json#/paths/~1y", "http://h.example/r/a/pi.json", "#/paths/~1x", "#/paths/~1z", "gone/pi.json"} {
+	for _, sec := range []string{"pi.json", "../b/pi.json", "../b/e.json#/paths/~1y", "http://h.example/r/a/pi.json", "#/paths/~1x", "#/paths/~1z", "gone/pi.json",
+		"pr.json", "../b/pr.json", "prr.json", "prh.json"} {
 		for _, entry := range []string{"file", "dataWithPath", "data"} {
 			for _, allowed := range []bool{false, true} {
 				files := []any{c11Doc("/r/a/root.json", kid(c11NewEl("pathItem", "#/paths/~1y"), "paths", "/x"), kid(c11NewEl("pathItem", sec), "paths", "/y"),
@@ -1428,6 +1486,13 @@ func c11GenRootChains(ctx *hx.Ctx, emit func(hx.Case)) {
 				for _, loc := range []string{"/r/a/pi.json", "/r/b/pi.json", "http://h.example/r/a/pi.json", "pi.json", "../b/pi.json"} {
 					files = append(files, c11Elem(loc, "pathItem", kid(c11NewEl("parameter", "p.json"), "parameters", "0")), c11Elem(c11Resolve(loc, "p.json"), "parameter"))
 				}
+				// path-item files that are themselves references: to a file in a sub-directory, to themselves, to a fragment
+				for _, dir := range []string{"/r/a/", "/r/b/", "", "../b/"} {
+					files = append(files, map[string]any{"loc": dir + "pr.json", "view": "pathItem", "root": c11NewEl("pathItem", "sub/p2.json")},
+						c11Elem(dir+"sub/p2.json", "pathItem", kid(c11NewEl("parameter", "p.json"), "parameters", "0")), c11Elem(dir+"sub/p.json", "parameter"))
+				}
+				files = append(files, map[string]any{"loc": "/r/a/prr.json", "view": "pathItem", "root": c11NewEl("pathItem", "prr.json")},
+					map[string]any{"loc": "/r/a/prh.json", "view": "pathItem", "root": c11NewEl("pathItem", "../b/e.json#/paths/~1y")})
 				for _, loc := range []string{"/r/b/e.json", "../b/e.json"} {
 					files = append(files, c11Doc(loc, kid(c11With(c11NewEl("pathItem", ""), kid(c11NewEl("parameter", "q.json"), "parameters", "0")), "paths", "/y")),
 						c11Elem(c11Resolve(loc, "q.json"), "parameter"))
@@ -1544,6 +1609,9 @@ func c11GenOtherKind(ctx *hx.Ctx, emit func(hx.Case)) {
 // ---------------------------------------------------------------- shrinking
 
 func shrinkC11(c hx.Case) []hx.Case {
+	if c11IsHistory(c) {
+		return shrinkC11History(c)
+	}
 	var out []hx.Case
 	g0, _ := c["g"].(map[string]any)
 	mk := func(mut func(g map[string]any) bool) {
